@@ -301,6 +301,17 @@ def classify(msg):
         return 'framing' if extra else 'harmless'
     if msg.name not in BOUND_MSGS:
         return 'framing'
+    if msg.name in ('REPLY', 'DONE') and msg.fields is not None and \
+            not extra and payload[:1] == msg.payload[:1]:
+        # only the signature differs: it is verified, not hashed
+        try:
+            got = parse_fields(msg.schema, payload)
+            if got['sig'] != msg.fields['sig'] and \
+                    all(got[k] == v for k, v in msg.fields.items()
+                        if k != 'sig'):
+                return 'sig'
+        except Malformed:
+            pass
     if msg.name in FIELDWISE_MSGS and msg.fields is not None and not extra:
         # RFC 4253 8: the hash covers the VALUES e, f, p, g (as mpint);
         # another encoding of the same values alters nothing that is hashed
@@ -645,6 +656,121 @@ def e_secret(kind, variant):
     return e_field('enc', val)
 
 
+# ---- structured strings: key blobs, certificates, signature blobs --------
+
+def _key_fields(r, base):
+    if base in ('ssh-rsa', 'rsa-sha2-256', 'rsa-sha2-512'):
+        return [['mpint', r.mpint(), None], ['mpint', r.mpint(), None]]
+    if base == 'ssh-dss':
+        return [['mpint', r.mpint(), None] for _ in range(4)]
+    if base.startswith('ecdsa-sha2-'):
+        return [['str', r.str(), None], ['str', r.str(), None]]
+    if base in ('ssh-ed25519', 'ssh-ed448'):
+        return [['str', r.str(), None]]
+    raise Malformed(f'unknown key type {base}')
+
+
+def blob_elements(blob, what):
+    """Elements of a public key / certificate ('key'), signature ('sig') or
+    ECDSA r,s ('rs') blob: [[kind, value, nested-kind or None], ...]."""
+    r = Rd(blob)
+    if what == 'rs':
+        out = [['mpint', r.mpint(), None], ['mpint', r.mpint(), None]]
+        r.end()
+        return out
+    t = r.str()
+    try:
+        name = t.decode('ascii')
+    except UnicodeDecodeError:
+        raise Malformed('type name') from None
+    out = [['str', t, None]]
+    if what == 'sig':
+        out.append(['str', r.str(),
+                    'rs' if name.startswith('ecdsa-sha2-') else None])
+        r.end()
+        return out
+    cert = name.endswith(CERT_SUFFIX)
+    if cert:
+        out.append(['str', r.str(), None])            # nonce
+        out += _key_fields(r, name[:-len(CERT_SUFFIX)])
+        out += [['u64', r.take(8), None], ['u32', r.take(4), None],
+                ['str', r.str(), None], ['str', r.str(), None],
+                ['u64', r.take(8), None], ['u64', r.take(8), None],
+                ['str', r.str(), None], ['str', r.str(), None],
+                ['str', r.str(), None], ['str', r.str(), 'key'],
+                ['str', r.str(), 'sig']]
+    else:
+        out += _key_fields(r, name)
+    r.end()
+    return out
+
+
+def _blob_build(elems):
+    out = b''
+    for kind, val, _ in elems:
+        if isinstance(val, Raw):
+            out += bytes(val)
+        elif kind == 'mpint':
+            out += mpint(val)
+        elif kind == 'str':
+            out += sstr(val)
+        else:
+            out += bytes(val)
+    return out
+
+
+def structured_variants(blob, what):
+    """Other spellings of the same structured string: an inner mpint with a
+    superfluous leading zero / sign extension, a byte appended inside, the
+    same recursively for nested blobs (a certificate's signature key and
+    signature, the r,s of an ECDSA signature).  -> [(label, bytes)]"""
+    try:
+        elems = blob_elements(blob, what)
+    except Malformed:
+        return []
+    out = []
+    for i, (kind, val, sub) in enumerate(elems):
+        def with_(v, i=i):
+            e = [list(x) for x in elems]
+            e[i][1] = v
+            return _blob_build(e)
+        if kind == 'mpint':
+            out.append((f'{what}[{i}]:lead_zero',
+                        with_(_raw_lp(b'\0' + _mp_body(val)))))
+            out.append((f'{what}[{i}]:neg', with_(mp_negative(val))))
+        elif kind == 'str' and sub:
+            for lbl, nb in structured_variants(val, sub):
+                out.append((f'{what}[{i}].{lbl}', with_(nb)))
+    out.append((f'{what}:append_byte', blob + b'\0'))
+    return out
+
+
+STRUCTURED_FIELDS = {('REPLY', 'ks'): 'key', ('REPLY', 'sig'): 'sig',
+                     ('PUBKEY', 'ks'): 'key', ('PUBKEY', 'kt'): 'key',
+                     ('DONE', 'sig'): 'sig'}
+
+
+def structured_edits(base_msgs):
+    """MITM edits re-spelling the structured strings of the messages of a
+    baseline handshake (labels from the baseline, applied to the blob that
+    travels then)."""
+    out = []
+    for m in base_msgs:
+        for (name, field), what in STRUCTURED_FIELDS.items():
+            if m.name != name or not m.fields:
+                continue
+            for k, (lbl, _) in enumerate(
+                    structured_variants(m.fields[field], what)):
+                def val(cur, msg, _, k=k, what=what):
+                    v = structured_variants(cur, what)
+                    if k >= len(v):
+                        raise Malformed('blob changed shape')
+                    return v[k][1]
+                out.append({'msg': name, 'fn': e_field(field, val),
+                            'label': f'{name}.{field}:{lbl}'})
+    return out
+
+
 class NotApplicable(Exception):
     """The abstract edit has no counterpart in this key exchange family
     (e.g. mpint encodings in a family whose values travel as strings)."""
@@ -937,12 +1063,20 @@ def run_handshake(kex, client=None, server=None, edits=(), trust='known',
         process.stdout.write('pong:' + (process.command or ''))
         process.exit(0)
 
-    keys = [host_key(a) for a in server_hostkeys]
-    if trust == 'known':
-        kh = b''.join(b'[127.0.0.1]:%d ' % PORT +
-                      k.export_public_key('openssh') for k in keys)
-    else:
-        kh = None
+    keys = []
+    khl = []
+    for a in server_hostkeys:
+        if a.endswith(CERT_SUFFIX):
+            # an RSA / ed25519 host certificate signed by the harness CA
+            k = 'rsacert' if 'rsa' in a else 'edcert'
+            keys += listener_keypairs({k})
+            khl.append(b'@cert-authority [127.0.0.1]:%d ' % PORT +
+                       _hk('ca').export_public_key('openssh'))
+        else:
+            keys.append(host_key(a))
+            khl.append(b'[127.0.0.1]:%d ' % PORT +
+                       keys[-1].export_public_key('openssh'))
+    kh = b''.join(khl) if trust == 'known' else None
     ckw = {}
     if client_hostkey_algs is not None:
         ckw['server_host_key_algs'] = list(client_hostkey_algs)
@@ -1117,6 +1251,19 @@ def key_blob_type_of(hostkey_alg):
     if base.startswith('rsa-sha2-'):
         base = 'ssh-rsa'
     return base + CERT_SUFFIX if hostkey_alg.endswith(CERT_SUFFIX) else base
+
+
+def received_signature_ok(mitm, session_id):
+    """Does the signature AS RECEIVED by the client verify over the session
+    id under the host key AS RECEIVED (independent verifier)?"""
+    rep = mitm.by_name.get('REPLY') or mitm.by_name.get('PUBKEY')
+    done = mitm.by_name.get('REPLY') or mitm.by_name.get('DONE')
+    try:
+        ks = parse_fields(rep.schema, unframe(rep.sent)[0])['ks']
+        sig = parse_fields(done.schema, unframe(done.sent)[0])['sig']
+    except (Malformed, AttributeError, KeyError):
+        return False
+    return verify_independent(ks, sig, session_id)
 
 
 def wire_hostkey_choice(mitm):
